@@ -263,6 +263,27 @@ func runProperty(rc *runCtx, spec *property) int {
 			var classes []string
 			for _, v := range res.Violations {
 				cl := v.Kind + ": " + v.Msg
+				if v.Kind == "panic" || v.Kind == "write" {
+					// stable class: the innermost go-critic function on the interpreted stack
+					site := ""
+					for _, l := range strings.Split(v.Stack, "\n") {
+						l = strings.TrimSpace(l)
+						if l == "" {
+							continue
+						}
+						if site == "" {
+							site = l
+						}
+						if strings.Contains(l, "go-critic/go-critic") && !strings.Contains(l, "gsx") {
+							site = l
+							break
+						}
+					}
+					cl = v.Kind + " in " + site
+					if v.Kind == "write" {
+						cl = "write: " + v.Msg + " in " + site
+					}
+				}
 				if h.Classify != nil {
 					cl = h.Classify(v)
 				}
